@@ -45,9 +45,12 @@ class d3_time_interval:
         return self._local(date)
 
     def ceil(self, date):
-        ndate = self._local(milli2dt(dt2milli(date) - 1))
-        ndate = self._step(ndate, 1)
-        return ndate
+        # a boundary is its own ceiling; anything else, however close to the
+        # boundary below it, goes up to the next one
+        ndate = self._local(date)
+        if ndate == date:
+            return ndate
+        return self._step(ndate, 1)
 
     def offset(self, date, k):
         ndate = self._step(date, k)
